@@ -6,8 +6,12 @@ the value of the constructed element (`evalG_render`), the constructors preserve
 (`selfGroup`, `mkBinary`, flattening, `negate`, `and_`/`or_`), hence the emitted tree evaluates
 to the meaning of the API-call tree (`build_num_eval`, `build_bool_eval`).
 -/
+set_option linter.unusedSectionVars false
+
 namespace SaVerif.Expr
 open SaVerif.Expr.Gen SaVerif.Pratt SaExpr
+
+variable [Abs]
 
 theorem truth_ofTV (t : TV) : truth (ofTV t) = t := by
   cases t with
@@ -47,10 +51,127 @@ theorem atom_lit (env : String → Val) (d : Dialect) (v : Lit) :
   | null => rfl
   | bool b => cases b <;> rfl
 
+theorem items_chainFrom_comma (env : String → Val) : ∀ (gs : List G) (acc : G),
+    (evalG (stdI env) (chainFrom .comma ", " acc gs)).items
+      = (evalG (stdI env) acc).items ++ (gs.map (fun g => (evalG (stdI env) g).items)).flatten
+  | [], acc => by simp [chainFrom]
+  | g :: gs, acc => by
+    simp only [chainFrom, items_chainFrom_comma env gs, evalG, List.map_cons, List.flatten_cons]
+    simp [stdI, stdInf, SV.items, List.append_assoc]
+
+theorem items_map_s (vs : List Val) : ((vs.map SV.s).map SV.items).flatten = vs := by
+  induction vs with
+  | nil => rfl
+  | cons v vs ih =>
+    show [v] ++ ((vs.map SV.s).map SV.items).flatten = v :: vs
+    rw [ih]; rfl
+
+/-- the argument list `a, b, c` denotes the list of the argument values -/
+theorem items_chain_comma (env : String → Val) (gs : List G) (vs : List Val) (hne : gs ≠ [])
+    (h : gs.map (evalG (stdI env)) = vs.map SV.s) :
+    (evalG (stdI env) (chain .comma ", " gs)).items = vs := by
+  cases gs with
+  | nil => exact absurd rfl hne
+  | cons g gs =>
+    simp only [chain, items_chainFrom_comma]
+    have : (g :: gs).map (fun x => (evalG (stdI env) x).items) = (vs.map SV.s).map SV.items := by
+      rw [← h, List.map_map]; rfl
+    simp only [List.map_cons] at this
+    rw [← List.flatten_cons, this, items_map_s]
+
+theorem items_whenChain (env : String → Val) : ∀ (n : Nat) (gs : List G) (acc : G), gs.length = 2 * n →
+    (evalG (stdI env) (whenChain acc gs)).items
+      = (evalG (stdI env) acc).items ++ (gs.map (fun g => (evalG (stdI env) g).items)).flatten
+  | 0, gs, acc, h => by
+    have : gs = [] := List.eq_nil_of_length_eq_zero (by omega)
+    subst this; simp [whenChain]
+  | n + 1, [], acc, h => by simp at h
+  | n + 1, [c], acc, h => by simp at h; omega
+  | n + 1, c :: r :: rest, acc, h => by
+    simp only [whenChain]
+    rw [items_whenChain env n rest _ (by simp at h; omega)]
+    simp only [evalG, List.map_cons, List.flatten_cons]
+    simp [stdI, stdInf, SV.items, List.append_assoc]
+
+theorem optG_of_absent {e : SaExpr} (g : G) (h : isAbsent e = true) : optG e g = none := by
+  cases e <;> simp [isAbsent] at h; rfl
+
+theorem optG_of_present {e : SaExpr} (g : G) (h : isAbsent e = false) : optG e g = some g := by
+  cases e <;> simp [isAbsent] at h <;> rfl
+
+theorem renderList_length (d : Dialect) (lb : Bool) : ∀ cs : List SaExpr,
+    (renderList d lb cs).length = cs.length
+  | [] => rfl
+  | c :: cs => by simp [renderList_cons, renderList_length d lb cs]
+
+/-- value of the rendered CASE from the values of its rendered parts -/
+theorem evalG_caseG (env : String → Val) (d : Dialect) (v : SaExpr) (ws : List SaExpr) (e : SaExpr)
+    (Rv : G) (Rws : List G) (Re : G) (n : Nat)
+    (hv : isAbsent v = false → evalG (stdI env) Rv = .s (evalCore env d v))
+    (he : isAbsent e = false → evalG (stdI env) Re = .s (evalCore env d e))
+    (hitems : (Rws.map (fun g => (evalG (stdI env) g).items)).flatten = evalCoreList env d ws)
+    (hlen : Rws.length = 2 * n) (h2 : 2 ≤ Rws.length) :
+    evalG (stdI env) (caseG (optG v Rv) Rws (optG e Re))
+      = .s (caseVal (isAbsent v) (evalCore env d v) (evalCoreList env d ws) (isAbsent e)
+          (evalCore env d e)) := by
+  cases hav : isAbsent v with
+  | true =>
+    rw [optG_of_absent Rv hav]
+    cases Rws with
+    | nil => simp at h2
+    | cons c Rws =>
+      cases Rws with
+      | nil => simp at h2
+      | cons r rest =>
+        have hrest : rest.length = 2 * (n - 1) := by simp at hlen; omega
+        have hb : (evalG (stdI env) (whenChain (G.inf .then_ " THEN " c r) rest)).items
+            = evalCoreList env d ws := by
+          rw [items_whenChain env (n - 1) rest _ hrest, ← hitems]
+          simp only [evalG, List.map_cons, List.flatten_cons]
+          simp [stdI, stdInf, SV.items, List.append_assoc]
+        simp only [caseG, caseBody, caseVal, if_true]
+        cases hae : isAbsent e with
+        | true =>
+          rw [optG_of_absent Re hae]
+          simp only [caseEnd, if_true, List.append_nil]
+          show SV.s (caseSearchedVal (evalG (stdI env) _).items) = _
+          rw [hb]
+        | false =>
+          rw [optG_of_present Re hae]
+          simp only [caseEnd, Bool.false_eq_true, if_false]
+          show SV.s (caseSearchedVal (stdInf .else_ (evalG (stdI env) _) (evalG (stdI env) Re)).items) = _
+          rw [he hae]
+          simp only [stdInf]
+          show SV.s (caseSearchedVal ((evalG (stdI env) _).items ++ [evalCore env d e])) = _
+          rw [hb]
+  | false =>
+    rw [optG_of_present Rv hav]
+    have hb : (evalG (stdI env) (whenChain Rv Rws)).items = evalCore env d v :: evalCoreList env d ws := by
+      rw [items_whenChain env n Rws _ hlen, hitems, hv hav]
+      rfl
+    simp only [caseG, caseBody, caseVal, Bool.false_eq_true, if_false]
+    cases hae : isAbsent e with
+    | true =>
+      rw [optG_of_absent Re hae]
+      simp only [caseEnd, if_true, List.append_nil]
+      show (match (evalG (stdI env) _).items with | x :: rest => SV.s (caseSimpleVal x rest) | [] => SV.s Val.null) = _
+      rw [hb]
+    | false =>
+      rw [optG_of_present Re hae]
+      simp only [caseEnd, Bool.false_eq_true, if_false]
+      show (match (stdInf .else_ (evalG (stdI env) _) (evalG (stdI env) Re)).items with
+        | x :: rest => SV.s (caseSimpleVal x rest) | [] => SV.s Val.null) = _
+      rw [he hae]
+      simp only [stdInf]
+      show (match (evalG (stdI env) _).items ++ [evalCore env d e] with
+        | x :: rest => SV.s (caseSimpleVal x rest) | [] => SV.s Val.null) = _
+      rw [hb]
+      rfl
+
 mutual
 /-- the emitted token tree of a core element evaluates to the element's value -/
 theorem evalG_render (env : String → Val) (d : Dialect) :
-    ∀ e : SaExpr, Core e = true → evalG (stdI env) (render d true e) = .s (evalCore env e)
+    ∀ e : SaExpr, Core e = true → evalG (stdI env) (render d true e) = .s (evalCore env d e)
   | .col n ty, _ => rfl
   | .bind v ty, _ => atom_lit env d v
   | .null, _ => rfl
@@ -76,7 +197,7 @@ theorem evalG_render (env : String → Val) (d : Dialect) :
     have h1 := hc.1
     cases op <;> simp [coreUn] at h1
     · simp only [symOf, stdI, SV.scalar, evalCore, unVal]
-      cases evalCore env e <;> rfl
+      cases evalCore env d e <;> rfl
     · rfl
   | .clist op cs gr bl ty, hc => by
     simp only [Core, Bool.and_eq_true, decide_eq_true_eq] at hc
@@ -89,16 +210,66 @@ theorem evalG_render (env : String → Val) (d : Dialect) :
       simp only [renderList_cons, chain, evalG_chainFrom]
       simp only [renderList_cons, List.map_cons, evalCoreList, List.cons.injEq] at hl
       rw [hl.1]
-      have : (renderList d true cs).foldl (fun v g => stdInf (symOf op) v (evalG (stdI env) g)) (SV.s (evalCore env c))
-          = ((renderList d true cs).map (evalG (stdI env))).foldl (fun v x => stdInf (symOf op) v x) (SV.s (evalCore env c)) := by
+      have : (renderList d true cs).foldl (fun v g => stdInf (symOf op) v (evalG (stdI env) g)) (SV.s (evalCore env d c))
+          = ((renderList d true cs).map (evalG (stdI env))).foldl (fun v x => stdInf (symOf op) v x) (SV.s (evalCore env d c)) := by
         rw [List.foldl_map]
       rw [this, hl.2, foldl_stdInf op (Or.inr hop)]
       rfl
   | .asbool _ _ _, hc => by simp [Core] at hc
-  | .case_ _ _ _ _, hc => by simp [Core] at hc
-  | .cast _ _, hc => by simp [Core] at hc
-  | .func _ _ _, hc => by simp [Core] at hc
-  | .subq _ _, hc => by simp [Core] at hc
+  | .subq _ _, _ => rfl
+  | .func n args ty, hc => by
+    simp only [Core, Bool.and_eq_true, Bool.not_eq_true'] at hc
+    rw [render_func]
+    have hl := evalG_renderList env d args hc.2
+    have hne : renderList d true args ≠ [] := by
+      cases args with
+      | nil => simp at hc
+      | cons a as => simp [renderList_cons]
+    show SV.s (fnVal n (evalG (stdI env) (chain .comma ", " (renderList d true args))).items) = _
+    rw [items_chain_comma env _ _ hne hl]
+    rfl
+  | .cast e ty, hc => by
+    have hce : Core e = true := by simpa [Core] using hc
+    have ih := evalG_render env d e hce
+    rw [render_cast]
+    simp only [evalCore, castVal]
+    cases castName d ty with
+    | some n =>
+      show (stdI env).br .cast (stdInf .as_ (evalG (stdI env) (render d true e)) (atomVal env ⟨n, .other⟩)) = _
+      rw [ih]; rfl
+    | none =>
+      by_cases hg : wouldGroup none e = true
+      · simp only [castG, hg, if_true]
+        show evalG (stdI env) (render d true e) = _
+        rw [ih]
+      · have hg' : wouldGroup none e = false := by simpa using hg
+        simp only [castG, hg', Bool.false_eq_true, if_false]
+        rw [ih]
+  | .case_ v ws e ty, hc => by
+    simp only [Core, Bool.and_eq_true, Bool.or_eq_true, decide_eq_true_eq] at hc
+    obtain ⟨⟨⟨⟨hcv, hcw⟩, hlen⟩, heven⟩, hce⟩ := hc
+    have hl := evalG_renderList env d ws hcw
+    rw [render_case]
+    -- values of the optional parts
+    have hv : isAbsent v = false → evalG (stdI env) (render d true v) = .s (evalCore env d v) := by
+      intro hna
+      rcases hcv with h | h
+      · rw [hna] at h; cases h
+      · exact evalG_render env d v h
+    have he : isAbsent e = false → evalG (stdI env) (render d true e) = .s (evalCore env d e) := by
+      intro hna
+      rcases hce with h | h
+      · rw [hna] at h; cases h
+      · exact evalG_render env d e h
+    have hitems : ((renderList d true ws).map (fun g => (evalG (stdI env) g).items)).flatten
+        = evalCoreList env d ws := by
+      have : (renderList d true ws).map (fun x => (evalG (stdI env) x).items)
+          = ((evalCoreList env d ws).map SV.s).map SV.items := by
+        rw [← hl, List.map_map]; rfl
+      rw [this, items_map_s]
+    have hrl : (renderList d true ws).length = ws.length := renderList_length d true ws
+    obtain ⟨n, hn⟩ : ∃ n, ws.length = 2 * n := ⟨ws.length / 2, by omega⟩
+    exact evalG_caseG env d v ws e _ _ _ n hv he hitems (by rw [hrl]; exact hn) (by rw [hrl]; exact hlen)
   | .inlist _ _ _, hc => by simp [Core] at hc
   | .inrows _ _ _, hc => by simp [Core] at hc
   | .tuple_ _, hc => by simp [Core] at hc
@@ -108,7 +279,7 @@ theorem evalG_render (env : String → Val) (d : Dialect) :
 
 theorem evalG_renderList (env : String → Val) (d : Dialect) :
     ∀ cs : List SaExpr, CoreList cs = true →
-      (renderList d true cs).map (evalG (stdI env)) = (evalCoreList env cs).map SV.s
+      (renderList d true cs).map (evalG (stdI env)) = (evalCoreList env d cs).map SV.s
   | [], _ => rfl
   | c :: cs, hc => by
     simp only [CoreList, Bool.and_eq_true] at hc
@@ -121,11 +292,13 @@ end SaVerif.Expr
 namespace SaVerif.Expr
 open SaVerif.Expr.Gen SaVerif.Pratt SaExpr
 
+variable [Abs]
+
 /-! ### the constructors preserve values -/
 
-theorem selfGroup_eval (env : String → Val) (a : Op) (x : SaExpr) (hc : Core x = true)
+theorem selfGroup_eval (env : String → Val) (d : Dialect) (a : Op) (x : SaExpr) (hc : Core x = true)
     (h : boolCtx a = false ∨ NonAtom x = true) :
-    evalCore env (selfGroup (some a) x) = evalCore env x := by
+    evalCore env d (selfGroup (some a) x) = evalCore env d x := by
   unfold selfGroup
   by_cases hg : wouldGroup (some a) x = true
   · simp only [hg, if_true]; rfl
@@ -139,26 +312,26 @@ theorem selfGroup_eval (env : String → Val) (a : Op) (x : SaExpr) (hc : Core x
       · exact Or.inr h
     cases x <;> first | rfl | (rcases hcol with h' | h' <;> simp_all [NonAtom]) | (simp [Core] at hc)
 
-theorem mkBinary_eval (env : String → Val) (l r : SaExpr) (op : Op) (ty : Ty) (n : Option Op)
+theorem mkBinary_eval (env : String → Val) (d : Dialect) (l r : SaExpr) (op : Op) (ty : Ty) (n : Option Op)
     (hop : coreBin op = true) (hcl : Core l = true) (hcr : Core r = true) :
-    evalCore env (mkBinary l r op ty n none) = binVal op (evalCore env l) (evalCore env r) := by
+    evalCore env d (mkBinary l r op ty n none) = binVal op (evalCore env d l) (evalCore env d r) := by
   simp only [mkBinary, evalCore]
-  rw [selfGroup_eval env op l hcl (Or.inl (coreBin_not_boolCtx hop)),
-    selfGroup_eval env op r hcr (Or.inl (coreBin_not_boolCtx hop))]
+  rw [selfGroup_eval env d op l hcl (Or.inl (coreBin_not_boolCtx hop)),
+    selfGroup_eval env d op r hcr (Or.inl (coreBin_not_boolCtx hop))]
 
-theorem evalCoreList_map_selfGroup (env : String → Val) (op : Op) (hb : boolCtx op = false ∨ True) :
+theorem evalCoreList_map_selfGroup (env : String → Val) (d : Dialect) (op : Op) (hb : boolCtx op = false ∨ True) :
     ∀ cs : List SaExpr, (∀ c ∈ cs, Core c = true ∧ (boolCtx op = false ∨ NonAtom c = true)) →
-      evalCoreList env (cs.map (selfGroup (some op))) = evalCoreList env cs
+      evalCoreList env d (cs.map (selfGroup (some op))) = evalCoreList env d cs
   | [], _ => rfl
   | c :: cs, h => by
     simp only [List.map_cons, evalCoreList]
-    rw [selfGroup_eval env op c (h c (by simp)).1 (h c (by simp)).2,
-      evalCoreList_map_selfGroup env op hb cs (fun x hx => h x (by simp [hx]))]
+    rw [selfGroup_eval env d op c (h c (by simp)).1 (h c (by simp)).2,
+      evalCoreList_map_selfGroup env d op hb cs (fun x hx => h x (by simp [hx]))]
 
-theorem evalCoreList_append (env : String → Val) : ∀ (as bs : List SaExpr),
-    evalCoreList env (as ++ bs) = evalCoreList env as ++ evalCoreList env bs
+theorem evalCoreList_append (env : String → Val) (d : Dialect) : ∀ (as bs : List SaExpr),
+    evalCoreList env d (as ++ bs) = evalCoreList env d as ++ evalCoreList env d bs
   | [], bs => rfl
-  | a :: as, bs => by simp [evalCoreList, evalCoreList_append env as bs]
+  | a :: as, bs => by simp [evalCoreList, evalCoreList_append env d as bs]
 
 theorem binVal_assoc (op : Op) (h : coreList op = true) (a b c : Val) :
     binVal op (binVal op a b) c = binVal op a (binVal op b c) := by
@@ -221,8 +394,8 @@ theorem foldVals_append (op : Op) (h : coreList op = true) (as bs : List Val)
       rw [foldl_binVal_assoc op h]
 
 /-- the operands taken over from a child that is itself a chain of `op` fold to its value -/
-theorem flattened_eval (env : String → Val) (op : Op) : ∀ l : SaExpr, operatorOf l = some op →
-    Core l = true → foldVals op (evalCoreList env (flattened l)) = evalCore env l
+theorem flattened_eval (env : String → Val) (d : Dialect) (op : Op) : ∀ l : SaExpr, operatorOf l = some op →
+    Core l = true → foldVals op (evalCoreList env d (flattened l)) = evalCore env d l
   | .binary op' a b n esc ty, ho, _ => by
     simp only [operatorOf, Option.some.injEq] at ho; subst ho
     rfl
@@ -231,7 +404,7 @@ theorem flattened_eval (env : String → Val) (op : Op) : ∀ l : SaExpr, operat
     rfl
   | .grouping e, ho, hc => by
     simp only [flattened]
-    exact flattened_eval env op e (by simpa [operatorOf] using ho) (by simpa [Core] using hc)
+    exact flattened_eval env d op e (by simpa [operatorOf] using ho) (by simpa [Core] using hc)
   | .unary op' e ty, ho, hc => by
     simp only [operatorOf, Option.some.injEq] at ho; subst ho
     simp only [flattened, evalCoreList, foldVals, List.foldl_nil]
@@ -241,10 +414,10 @@ theorem flattened_eval (env : String → Val) (op : Op) : ∀ l : SaExpr, operat
   | .true_, ho, _ => by simp [operatorOf] at ho
   | .false_, ho, _ => by simp [operatorOf] at ho
   | .asbool _ _ _, _, hc => by simp [Core] at hc
-  | .case_ _ _ _ _, _, hc => by simp [Core] at hc
-  | .cast _ _, _, hc => by simp [Core] at hc
-  | .func _ _ _, _, hc => by simp [Core] at hc
-  | .subq _ _, _, hc => by simp [Core] at hc
+  | .case_ _ _ _ _, ho, _ => by simp [operatorOf] at ho
+  | .cast _ _, ho, _ => by simp [operatorOf] at ho
+  | .func _ _ _, ho, _ => by simp [operatorOf] at ho
+  | .subq _ _, ho, _ => by simp [operatorOf] at ho
   | .inlist _ _ _, _, hc => by simp [Core] at hc
   | .inrows _ _ _, _, hc => by simp [Core] at hc
   | .tuple_ _, _, hc => by simp [Core] at hc
@@ -252,15 +425,15 @@ theorem flattened_eval (env : String → Val) (op : Op) : ∀ l : SaExpr, operat
   | .ilikeOperand _, _, hc => by simp [Core] at hc
   | .absent, _, hc => by simp [Core] at hc
 
-theorem evalCoreList_ne_nil (env : String → Val) : ∀ cs : List SaExpr, cs ≠ [] → evalCoreList env cs ≠ []
+theorem evalCoreList_ne_nil (env : String → Val) (d : Dialect) : ∀ cs : List SaExpr, cs ≠ [] → evalCoreList env d cs ≠ []
   | [], h => absurd rfl h
   | c :: cs, _ => by simp [evalCoreList]
 
 /-- **constructForOp_eval**: flattening (or not) does not change the value -/
-theorem constructForOp_eval (env : String → Val) (l r : SaExpr) (op : Op) (ty : Ty) (n : Option Op)
+theorem constructForOp_eval (env : String → Val) (d : Dialect) (l r : SaExpr) (op : Op) (ty : Ty) (n : Option Op)
     (hop : coreBin op = true)
     (hcl : Core l = true) (hwl : WG l = true) (hcr : Core r = true) (hwr : WG r = true) :
-    evalCore env (constructForOp l r op ty n none) = binVal op (evalCore env l) (evalCore env r) := by
+    evalCore env d (constructForOp l r op ty n none) = binVal op (evalCore env d l) (evalCore env d r) := by
   unfold constructForOp
   by_cases ha : associative op = true
   · simp only [ha, if_true]
@@ -270,14 +443,14 @@ theorem constructForOp_eval (env : String → Val) (l r : SaExpr) (op : Op) (ty 
       obtain ⟨fl, fln⟩ := flattened_core l hcl hwl
       obtain ⟨fr, frn⟩ := flattened_core r hcr hwr
       simp only [constructForList, evalCore]
-      rw [evalCoreList_map_selfGroup env op (Or.inr trivial)]
+      rw [evalCoreList_map_selfGroup env d op (Or.inr trivial)]
       · rw [evalCoreList_append, foldVals_append op hcL]
         · congr 1
           · split
-            · rename_i h1; exact flattened_eval env op l h1.1 hcl
+            · rename_i h1; exact flattened_eval env d op l h1.1 hcl
             · rfl
           · split
-            · rename_i h1; exact flattened_eval env op r h1.1 hcr
+            · rename_i h1; exact flattened_eval env d op r h1.1 hcr
             · rfl
         · apply evalCoreList_ne_nil
           split
@@ -298,14 +471,16 @@ theorem constructForOp_eval (env : String → Val) (l r : SaExpr) (op : Op) (ty 
           · exact (fr c hc).1
           · simp at hc; subst hc; exact hcr
     · simp only [hf, if_false]
-      exact mkBinary_eval env l r op ty n hop hcl hcr
+      exact mkBinary_eval env d l r op ty n hop hcl hcr
   · simp only [ha, Bool.false_eq_true, if_false]
-    exact mkBinary_eval env l r op ty n hop hcl hcr
+    exact mkBinary_eval env d l r op ty n hop hcl hcr
 
 end SaVerif.Expr
 
 namespace SaVerif.Expr
 open SaVerif.Expr.Gen SaVerif.Pratt SaExpr
+
+variable [Abs]
 
 /-! ### negation -/
 
@@ -358,8 +533,8 @@ theorem unVal_inv_truth (v : Val) : truth (unVal .inv v) = not3 (truth v) := by
   simp [unVal, truth_ofTV]
 
 /-- **negate_eval**: `~e` evaluates to the three-valued NOT of `e` -/
-theorem negate_eval (env : String → Val) (e : SaExpr) (h : BoolE e) (hs : negSound e) :
-    truth (evalCore env (negate e)) = not3 (truth (evalCore env e)) ∧ negSound (negate e) := by
+theorem negate_eval (env : String → Val) (d : Dialect) (e : SaExpr) (h : BoolE e) (hs : negSound e) :
+    truth (evalCore env d (negate e)) = not3 (truth (evalCore env d e)) ∧ negSound (negate e) := by
   obtain ⟨hc, hw, hsh⟩ := h
   cases e with
   | binary op l r n esc ty =>
@@ -373,7 +548,7 @@ theorem negate_eval (env : String → Val) (e : SaExpr) (h : BoolE e) (hs : negS
         simp only [Core, Bool.and_eq_true] at hc
         simp only [negate, negateInBinary_core r n op hc.2]
         refine ⟨?_, ?_⟩
-        · rw [mkBinary_eval env l r n ty (some op) hsh hc.1.2 hc.2]
+        · rw [mkBinary_eval env d l r n ty (some op) hsh hc.1.2 hc.2]
           simp only [evalCore]
           exact hs.1 _ _
         · simp only [mkBinary, negSound]
@@ -384,14 +559,14 @@ theorem negate_eval (env : String → Val) (e : SaExpr) (h : BoolE e) (hs : negS
     simp only [evalCore]
     have hna : NonAtom (SaExpr.clist op cs gr bl ty) = true := rfl
     obtain ⟨c1, _, _⟩ := selfGroup_core .inv _ hc hw (Or.inl rfl)
-    rw [selfGroup_eval env .inv _ c1 (Or.inl rfl), selfGroup_eval env .inv _ hc (Or.inl rfl)]
+    rw [selfGroup_eval env d .inv _ c1 (Or.inl rfl), selfGroup_eval env d .inv _ hc (Or.inl rfl)]
     exact unVal_inv_truth _
   | unary op x ty =>
     simp only [negate]
     refine ⟨?_, trivial⟩
     simp only [evalCore]
     obtain ⟨c1, _, _⟩ := selfGroup_core .inv _ hc hw (Or.inl rfl)
-    rw [selfGroup_eval env .inv _ c1 (Or.inl rfl), selfGroup_eval env .inv _ hc (Or.inl rfl)]
+    rw [selfGroup_eval env d .inv _ c1 (Or.inl rfl), selfGroup_eval env d .inv _ hc (Or.inl rfl)]
     exact unVal_inv_truth _
   | col _ _ => simp [boolShape] at hsh
   | bind _ _ => simp [boolShape] at hsh
@@ -415,6 +590,8 @@ end SaVerif.Expr
 
 namespace SaVerif.Expr
 open SaVerif.Expr.Gen SaVerif.Pratt SaExpr
+
+variable [Abs]
 
 /-! ### `and_` / `or_` -/
 
@@ -477,25 +654,25 @@ theorem truth_foldVals_or : ∀ vs : List Val, vs ≠ [] →
     rw [truth_foldVals_or (w :: ws) (by simp)]
     simp [orAll]
 
-theorem evalCoreList_flatMap (env : String → Val) (f : SaExpr → List SaExpr) :
-    ∀ ys : List SaExpr, evalCoreList env (ys.flatMap f) = (ys.map (fun y => evalCoreList env (f y))).flatten
+theorem evalCoreList_flatMap (env : String → Val) (d : Dialect) (f : SaExpr → List SaExpr) :
+    ∀ ys : List SaExpr, evalCoreList env d (ys.flatMap f) = (ys.map (fun y => evalCoreList env d (f y))).flatten
   | [] => rfl
   | y :: ys => by
     simp only [List.flatMap_cons, evalCoreList_append, List.map_cons, List.flatten_cons]
-    rw [evalCoreList_flatMap env f ys]
+    rw [evalCoreList_flatMap env d f ys]
 
-theorem evalCoreList_eq_map (env : String → Val) : ∀ cs : List SaExpr,
-    evalCoreList env cs = cs.map (evalCore env)
+theorem evalCoreList_eq_map (env : String → Val) (d : Dialect) : ∀ cs : List SaExpr,
+    evalCoreList env d cs = cs.map (evalCore env d)
   | [] => rfl
-  | c :: cs => by simp [evalCoreList, evalCoreList_eq_map env cs]
+  | c :: cs => by simp [evalCoreList, evalCoreList_eq_map env d cs]
 
 /-- value of the list `and_` / `or_` builds from two or more boolean clauses -/
-theorem boolConstruct_multi_eval (env : String → Val) (operator : Op)
+theorem boolConstruct_multi_eval (env : String → Val) (d : Dialect) (operator : Op)
     (hop : operator = .and_ ∨ operator = .or_) (cs : List SaExpr) (hne : cs ≠ [])
     (h : ∀ c ∈ cs, BoolE c) :
-    foldVals operator (evalCoreList env ((cs.map (selfGroup (some operator))).flatMap
+    foldVals operator (evalCoreList env d ((cs.map (selfGroup (some operator))).flatMap
         (fun c => if operatorOf c = some operator then flattened c else [c])))
-      = foldVals operator (cs.map (evalCore env)) := by
+      = foldVals operator (cs.map (evalCore env d)) := by
   have hcl : coreList operator = true := by rcases hop with ho | ho <;> subst ho <;> rfl
   rw [evalCoreList_flatMap]
   have hna : ∀ x ∈ cs, NonAtom x = true := by
@@ -512,9 +689,9 @@ theorem boolConstruct_multi_eval (env : String → Val) (operator : Op)
     simp only [Function.comp]
     split
     · rename_i ho
-      rw [flattened_eval env operator _ ho cy, selfGroup_eval env operator x bx.core (Or.inr (hna x hx))]
+      rw [flattened_eval env d operator _ ho cy, selfGroup_eval env d operator x bx.core (Or.inr (hna x hx))]
     · simp only [evalCoreList, foldVals, List.foldl_nil]
-      exact selfGroup_eval env operator x bx.core (Or.inr (hna x hx))
+      exact selfGroup_eval env d operator x bx.core (Or.inr (hna x hx))
   · cases cs with
     | nil => exact absurd rfl hne
     | cons c cs => simp
@@ -530,11 +707,11 @@ theorem boolConstruct_multi_eval (env : String → Val) (operator : Op)
 
 /-- **boolConstruct_eval**: `and_(*clauses)` evaluates to the n-ary AND of the clauses
     (`or_` to the n-ary OR), whatever the nesting and flattening -/
-theorem boolConstruct_eval (env : String → Val) (operator : Op)
+theorem boolConstruct_eval (env : String → Val) (d : Dialect) (operator : Op)
     (hop : operator = .and_ ∨ operator = .or_) (cs : List SaExpr) (hne : cs ≠ [])
     (h : ∀ c ∈ cs, BoolE c) :
-    truth (evalCore env (boolConstruct operator cs)) =
-      (if operator = .and_ then andAll else orAll) (cs.map (fun c => truth (evalCore env c))) := by
+    truth (evalCore env d (boolConstruct operator cs)) =
+      (if operator = .and_ then andAll else orAll) (cs.map (fun c => truth (evalCore env d c))) := by
   have hnc : ∀ c ∈ cs, isTrueConst c = false ∧ isFalseConst c = false :=
     fun c hc => boolE_not_const (h c hc)
   unfold boolConstruct
@@ -549,7 +726,7 @@ theorem boolConstruct_eval (env : String → Val) (operator : Op)
       rcases hop with ho | ho <;> subst ho <;> simp [andAll, orAll, and3_true_right, or3_false_right]
     | cons c2 rest =>
       simp only [if_true, show (1 : Nat) < 2 from by decide, evalCore]
-      rw [boolConstruct_multi_eval env operator hop (c1 :: c2 :: rest) (by simp) h]
+      rw [boolConstruct_multi_eval env d operator hop (c1 :: c2 :: rest) (by simp) h]
       rcases hop with ho | ho <;> subst ho
       · simp only [if_true]
         rw [truth_foldVals_and _ (by simp)]
@@ -563,83 +740,77 @@ end SaVerif.Expr
 namespace SaVerif.Expr
 open SaVerif.Expr.Gen SaVerif.Pratt SaExpr
 
+variable [Abs]
+
 /-! ### `build` preserves meaning -/
 
-/-- **build_num_eval**: the element built for a numeric API-call tree has the tree's value -/
-theorem build_num_eval (env : String → Val) : ∀ (u : U) (e : SaExpr), NumU u = true →
-    build u = some e → evalCore env e = evalNumU env u
-  | .col n ty, e, _, hb => by
-    simp only [build, Option.some.injEq] at hb; subst hb; rfl
-  | .li i, e, _, hb => by
-    simp only [build, Option.some.injEq] at hb; subst hb; rfl
-  | .ln s, e, _, hb => by
-    simp only [build, Option.some.injEq] at hb; subst hb; rfl
-  | .neg a, e, hu, hb => by
-    simp only [build] at hb
-    cases ha : build a with
-    | none => simp [ha] at hb
-    | some x =>
-      simp only [ha, Option.map_some, Option.some.injEq] at hb; subst hb
-      have nx := build_num a x (by simpa [NumU] using hu) ha
-      simp only [negImpl, evalCore, evalNumU]
-      rw [selfGroup_eval env .neg x nx.core (Or.inl rfl),
-        build_num_eval env a x (by simpa [NumU] using hu) ha]
-  | .bin k a b, e, hu, hb => by
-    simp only [NumU, Bool.and_eq_true] at hu
-    simp only [build] at hb
-    cases ha : build a with
-    | none => simp [ha] at hb
-    | some x =>
-      cases hb' : build b with
-      | none => simp [ha, hb'] at hb
-      | some y =>
-        simp only [ha, hb', arithK_isArith k hu.1.1, if_true, Option.some.injEq] at hb
-        subst hb
-        have nx := build_num a x hu.1.2 ha
-        have ny := build_num b y hu.2 hb'
-        obtain ⟨h1, _⟩ := adapt_num k.op (tyOf x) (tyOf y) nx.ty
-        unfold binaryOperate
-        have e : adaptExpression k.op (tyOf x) (tyOf y) =
-            (k.op, (adaptExpression k.op (tyOf x) (tyOf y)).2) := Prod.ext h1 rfl
-        rw [e]
-        simp only
-        rw [constructForOp_eval env x y k.op _ none (arithK_coreBin k hu.1.1) nx.core nx.wg ny.core ny.wg,
-          build_num_eval env a x hu.1.2 ha, build_num_eval env b y hu.2 hb']
-        rfl
-  | .ls _, _, hu, _ => by simp [NumU] at hu
-  | .lb _, _, hu, _ => by simp [NumU] at hu
-  | .null, _, hu, _ => by simp [NumU] at hu
-  | .true_, _, hu, _ => by simp [NumU] at hu
-  | .false_, _, hu, _ => by simp [NumU] at hu
-  | .like _ _ _ _, _, hu, _ => by simp [NumU] at hu
-  | .not_ _, _, hu, _ => by simp [NumU] at hu
-  | .between _ _ _, _, hu, _ => by simp [NumU] at hu
-  | .and_ _, _, hu, _ => by simp [NumU] at hu
-  | .or_ _, _, hu, _ => by simp [NumU] at hu
-  | .case_ _ _ _, _, hu, _ => by simp [NumU] at hu
-  | .cast _ _, _, hu, _ => by simp [NumU] at hu
-  | .coalesce _, _, hu, _ => by simp [NumU] at hu
-  | .subq _ _, _, hu, _ => by simp [NumU] at hu
-  | .inOp _ _ _, _, hu, _ => by simp [NumU] at hu
-  | .tupleIn _ _ _, _, hu, _ => by simp [NumU] at hu
-  | .pi _, _, hu, _ => by simp [NumU] at hu
-  | .ps _, _, hu, _ => by simp [NumU] at hu
-  | .strop _ _ _ _, _, hu, _ => by simp [NumU] at hu
-  | .absent, _, hu, _ => by simp [NumU] at hu
-
 mutual
-/-- no `is_` / `is_not` between two general operands (finding `negate-is-general-operand`:
-    their recorded negate operator is not their negation) -/
+/-- no `is_` / `is_not` between two general operands anywhere in the tree (finding
+    `negate-is-general-operand`: their recorded negate operator is not their negation) -/
 def noIsGen : U → Bool
-  | .bin k _ b => !((k = .is_ || k = .isnot) && (match b with | .null => false | _ => true))
+  | .bin k a b =>
+    !((k = .is_ || k = .isnot) && (match b with | .null => false | _ => true)) &&
+      noIsGen a && noIsGen b
   | .not_ a => noIsGen a
+  | .neg a => noIsGen a
+  | .cast _ a => noIsGen a
   | .and_ cs => noIsGenList cs
   | .or_ cs => noIsGenList cs
+  | .coalesce cs => noIsGenList cs
+  | .case_ v ws e => noIsGen v && noIsGenList ws && noIsGen e
   | _ => true
 def noIsGenList : List U → Bool
   | [] => true
   | u :: us => noIsGen u && noIsGenList us
 end
+
+theorem selfGroup_none_eval (env : String → Val) (d : Dialect) (x : SaExpr) :
+    evalCore env d (selfGroup none x) = evalCore env d x := by
+  unfold selfGroup
+  by_cases hg : wouldGroup none x = true
+  · simp only [hg, if_true]; rfl
+  · have hg' : wouldGroup none x = false := by simpa using hg
+    simp only [hg', Bool.false_eq_true, if_false]
+    have hcol : columnSelfGroup none x = x := by simp [columnSelfGroup]
+    cases x <;> first | rfl | (show evalCore env d (columnSelfGroup _ _) = _; rw [hcol])
+
+theorem groupConds_eval (env : String → Val) (d : Dialect) : ∀ ws : List SaExpr,
+    evalCoreList env d (groupConds ws) = evalCoreList env d ws
+  | [] => rfl
+  | [_] => rfl
+  | c :: r :: rest => by
+    simp only [groupConds, evalCoreList, selfGroup_none_eval, groupConds_eval env d rest]
+
+theorem mkCase_eval (env : String → Val) (d : Dialect) (v : SaExpr) (ws : List SaExpr) (e : SaExpr) :
+    evalCore env d (mkCase v ws e) =
+      caseVal (isAbsent v) (evalCore env d v) (evalCoreList env d ws) (isAbsent e) (evalCore env d e) := by
+  simp only [mkCase, evalCore, groupConds_eval]
+
+theorem fnVal_coalesce (vs : List Val) : fnVal "coalesce" vs = coalesceVal vs := by
+  simp [fnVal]
+
+theorem mkFunc_coalesce_eval (env : String → Val) (d : Dialect) (es : List SaExpr)
+    (h : ∀ e ∈ es, Core e = true) :
+    evalCore env d (mkFunc "coalesce" es) = coalesceVal (evalCoreList env d es) := by
+  simp only [mkFunc, evalCore, fnVal_coalesce]
+  rw [evalCoreList_map_selfGroup env d .comma_op (Or.inr trivial) es
+    (fun c hc => ⟨h c hc, Or.inl rfl⟩)]
+
+theorem caseSimple_eval (env : String → Val) (d : Dialect) (v : Val) :
+    ∀ (n : Nat) (ws : List U), ws.length = 2 * n → ∀ tail : List Val,
+      caseSimpleVal v (evalNumUList env d ws ++ tail) = evalSimple env d v ws (caseSimpleVal v tail)
+  | 0, ws, h, tail => by
+    have : ws = [] := List.eq_nil_of_length_eq_zero (by omega)
+    subst this
+    simp [evalNumUList, evalSimple]
+  | n + 1, ws, h, tail => by
+    match ws, h with
+    | c :: r :: rest, h =>
+      have hl : rest.length = 2 * n := by simp only [List.length_cons] at h; omega
+      simp only [evalNumUList, List.cons_append, caseSimpleVal, evalSimple,
+        caseSimple_eval env d v n rest hl tail]
+    | [], h => simp at h
+    | [_], h => simp at h; omega
 
 theorem booleanCompare_num_eq (x y : SaExpr) (k : BinK) (hk : cmpK k = true) (hy : NumE y) :
     booleanCompare x k.op y (negateOp k.op) none =
@@ -662,6 +833,8 @@ end SaVerif.Expr
 
 namespace SaVerif.Expr
 open SaVerif.Expr.Gen SaVerif.Pratt SaExpr
+
+variable [Abs]
 
 theorem negSound_boolConstruct (operator : Op) (hop : operator = .and_ ∨ operator = .or_)
     (cs : List SaExpr) (hne : cs ≠ []) (h : ∀ c ∈ cs, BoolE c) (hs : ∀ c ∈ cs, negSound c) :
@@ -692,21 +865,199 @@ theorem null_of_match (b : U) (k : BinK)
   cases b <;> first | rfl | (simp at h)
 
 mutual
+/-- **build_num_eval**: the element built for a numeric API-call tree has the tree's value -/
+theorem build_num_eval (env : String → Val) (d : Dialect) : ∀ (u : U) (e : SaExpr), NumU u = true →
+    noIsGen u = true → build u = some e → evalCore env d e = evalNumU env d u
+  | .col n ty, e, _, _, hb => by
+    simp only [build, Option.some.injEq] at hb; subst hb; simp only [evalCore, evalNumU]
+  | .subq n ty, e, _, _, hb => by
+    simp only [build, Option.some.injEq] at hb; subst hb; simp only [evalCore, evalNumU]
+  | .li i, e, _, _, hb => by
+    simp only [build, Option.some.injEq] at hb; subst hb; simp only [evalCore, evalNumU, litVal]
+  | .ln s, e, _, _, hb => by
+    simp only [build, Option.some.injEq] at hb; subst hb; simp only [evalCore, evalNumU, litVal]
+  | .neg a, e, hu, hn, hb => by
+    simp only [build] at hb
+    cases ha : build a with
+    | none => simp [ha] at hb
+    | some x =>
+      simp only [ha, Option.map_some, Option.some.injEq] at hb; subst hb
+      have nx := build_num a x (by simpa [NumU] using hu) ha
+      simp only [negImpl, evalCore, evalNumU]
+      rw [selfGroup_eval env d .neg x nx.core (Or.inl rfl),
+        build_num_eval env d a x (by simpa [NumU] using hu) (by simpa [noIsGen] using hn) ha]
+  | .cast ty a, e, hu, hn, hb => by
+    simp only [NumU, Bool.and_eq_true] at hu
+    simp only [build] at hb
+    cases ha : build a with
+    | none => simp [ha] at hb
+    | some x =>
+      simp only [ha, Option.map_some, Option.some.injEq] at hb; subst hb
+      simp only [evalCore, evalNumU]
+      rw [build_num_eval env d a x hu.2 (by simpa [noIsGen] using hn) ha]
+  | .coalesce cs, e, hu, hn, hb => by
+    simp only [NumU, Bool.and_eq_true, Bool.not_eq_true'] at hu
+    simp only [build] at hb
+    cases hl : buildList cs with
+    | none => simp [hl] at hb
+    | some es =>
+      simp only [hl, Option.map_some, Option.some.injEq] at hb; subst hb
+      have hne := build_numList cs es hu.2 hl
+      rw [mkFunc_coalesce_eval env d es (fun c hc => (hne c hc).core),
+        build_numList_eval env d cs es hu.2 (by simpa [noIsGen] using hn) hl]
+      simp only [evalNumU]
+  | .case_ v ws el, e, hu, hn, hb => by
+    simp only [NumU, Bool.and_eq_true, Bool.not_eq_true', Bool.or_eq_true] at hu
+    obtain ⟨⟨hne, hvw⟩, hel⟩ := hu
+    simp only [noIsGen, Bool.and_eq_true] at hn
+    simp only [build] at hb
+    cases hv : build v with
+    | none => simp [hv] at hb
+    | some v' =>
+      cases hl : buildList ws with
+      | none => simp [hv, hl] at hb
+      | some es =>
+        cases he : build el with
+        | none => simp [hv, hl, he] at hb
+        | some e' =>
+          simp only [hv, hl, he, Option.some.injEq] at hb; subst hb
+          rw [mkCase_eval]
+          -- the ELSE part
+          have hE : ∀ f : List Val → Val, f [] = Val.null → (∀ x, f [x] = x) →
+              f (if isAbsent e' = true then [] else [evalCore env d e']) = evalNumU env d el := by
+            intro f f0 f1
+            rcases hel with h | h
+            · have := isAbsentU_eq h; subst this
+              simp only [build, Option.some.injEq] at he; subst he
+              simp only [isAbsent, if_true, f0, evalNumU]
+            · have ne' := build_num el e' h he
+              rw [numE_not_absent ne']
+              simp only [Bool.false_eq_true, if_false, f1]
+              exact build_num_eval env d el e' h hn.2 he
+          by_cases hav : isAbsentU v = true
+          · simp only [hav, if_true] at hvw
+            have := isAbsentU_eq hav; subst this
+            simp only [build, Option.some.injEq] at hv; subst hv
+            have hA : isAbsent SaExpr.absent = true := rfl
+            have hA' : isAbsentU U.absent = true := rfl
+            simp only [caseVal, hA, hA', if_true, evalNumU]
+            rw [build_searched_eval env d ws es hvw hn.1.2 hl,
+              hE caseSearchedVal rfl (fun _ => rfl)]
+          · have hav' : isAbsentU v = false := by simpa using hav
+            simp only [hav', Bool.false_eq_true, if_false, Bool.and_eq_true, decide_eq_true_eq] at hvw
+            have nv := build_num v v' hvw.1.1 hv
+            simp only [caseVal, numE_not_absent nv, Bool.false_eq_true, if_false, evalNumU, hav']
+            rw [build_numList_eval env d ws es hvw.1.2 hn.1.2 hl,
+              build_num_eval env d v v' hvw.1.1 hn.1.1 hv,
+              caseSimple_eval env d _ (ws.length / 2) ws (by omega),
+              hE (caseSimpleVal _) rfl (fun _ => rfl)]
+  | .bin k a b, e, hu, hn, hb => by
+    simp only [NumU, Bool.and_eq_true] at hu
+    simp only [noIsGen, Bool.and_eq_true] at hn
+    simp only [build] at hb
+    cases ha : build a with
+    | none => simp [ha] at hb
+    | some x =>
+      cases hb' : build b with
+      | none => simp [ha, hb'] at hb
+      | some y =>
+        simp only [ha, hb', arithK_isArith k hu.1.1, if_true, Option.some.injEq] at hb
+        subst hb
+        have nx := build_num a x hu.1.2 ha
+        have ny := build_num b y hu.2 hb'
+        obtain ⟨h1, _⟩ := adapt_num k.op (tyOf x) (tyOf y) nx.ty
+        unfold binaryOperate
+        have e : adaptExpression k.op (tyOf x) (tyOf y) =
+            (k.op, (adaptExpression k.op (tyOf x) (tyOf y)).2) := Prod.ext h1 rfl
+        rw [e]
+        simp only
+        rw [constructForOp_eval env d x y k.op _ none (arithK_coreBin k hu.1.1) nx.core nx.wg ny.core ny.wg,
+          build_num_eval env d a x hu.1.2 hn.1.2 ha, build_num_eval env d b y hu.2 hn.2 hb']
+        simp only [evalNumU]
+  | .ls _, _, hu, _, _ => by simp [NumU] at hu
+  | .lb _, _, hu, _, _ => by simp [NumU] at hu
+  | .null, _, hu, _, _ => by simp [NumU] at hu
+  | .true_, _, hu, _, _ => by simp [NumU] at hu
+  | .false_, _, hu, _, _ => by simp [NumU] at hu
+  | .like _ _ _ _, _, hu, _, _ => by simp [NumU] at hu
+  | .not_ _, _, hu, _, _ => by simp [NumU] at hu
+  | .between _ _ _, _, hu, _, _ => by simp [NumU] at hu
+  | .and_ _, _, hu, _, _ => by simp [NumU] at hu
+  | .or_ _, _, hu, _, _ => by simp [NumU] at hu
+  | .inOp _ _ _, _, hu, _, _ => by simp [NumU] at hu
+  | .tupleIn _ _ _, _, hu, _, _ => by simp [NumU] at hu
+  | .pi _, _, hu, _, _ => by simp [NumU] at hu
+  | .ps _, _, hu, _, _ => by simp [NumU] at hu
+  | .strop _ _ _ _, _, hu, _, _ => by simp [NumU] at hu
+  | .absent, _, hu, _, _ => by simp [NumU] at hu
+
+theorem build_numList_eval (env : String → Val) (d : Dialect) : ∀ (us : List U) (es : List SaExpr),
+    NumUList us = true → noIsGenList us = true → buildList us = some es →
+    evalCoreList env d es = evalNumUList env d us
+  | [], es, _, _, hb => by
+    simp only [buildList, Option.some.injEq] at hb; subst hb
+    simp only [evalCoreList, evalNumUList]
+  | u :: us, es, hu, hn, hb => by
+    simp only [NumUList, Bool.and_eq_true] at hu
+    simp only [noIsGenList, Bool.and_eq_true] at hn
+    simp only [buildList] at hb
+    cases h1 : build u with
+    | none => simp [h1] at hb
+    | some x =>
+      cases h2 : buildList us with
+      | none => simp [h1, h2] at hb
+      | some xs =>
+        simp only [h1, h2, Option.some.injEq] at hb; subst hb
+        simp only [evalCoreList, evalNumUList, build_num_eval env d u x hu.1 hn.1 h1,
+          build_numList_eval env d us xs hu.2 hn.2 h2]
+
+theorem build_searched_eval (env : String → Val) (d : Dialect) : ∀ (us : List U) (es : List SaExpr),
+    SearchedU us = true → noIsGenList us = true → buildList us = some es → ∀ tail : List Val,
+    caseSearchedVal (evalCoreList env d es ++ tail) = evalSearched env d us (caseSearchedVal tail)
+  | [], es, _, _, hb => by
+    simp only [buildList, Option.some.injEq] at hb; subst hb
+    intro tail
+    simp only [evalCoreList, List.nil_append, evalSearched]
+  | [_], _, hu, _, _ => by simp [SearchedU] at hu
+  | c :: r :: rest, es, hu, hn, hb => by
+    simp only [SearchedU, Bool.and_eq_true] at hu
+    simp only [noIsGenList, Bool.and_eq_true] at hn
+    simp only [buildList] at hb
+    cases h1 : build c with
+    | none => simp [h1] at hb
+    | some c' =>
+      cases h2 : build r with
+      | none => simp [h1, h2] at hb
+      | some r' =>
+        cases h3 : buildList rest with
+        | none => simp [h1, h2, h3] at hb
+        | some rest' =>
+          simp only [h1, h2, h3, Option.some.injEq] at hb; subst hb
+          intro tail
+          obtain ⟨bc, _⟩ := build_bool_eval env d c c' hu.1.1 hn.1 h1
+          have nr := build_num_eval env d r r' hu.1.2 hn.2.1 h2
+          have ih := build_searched_eval env d rest rest' hu.2 hn.2.2 h3 tail
+          simp only [evalCoreList, List.cons_append, caseSearchedVal, evalSearched, bc, nr, ih]
+
 /-- **build_bool_eval**: the element built for a boolean API-call tree evaluates to the tree's
     three-valued meaning (and records sound negations), for every row -/
-theorem build_bool_eval (env : String → Val) : ∀ (u : U) (e : SaExpr), BoolU u = true →
+theorem build_bool_eval (env : String → Val) (d : Dialect) : ∀ (u : U) (e : SaExpr), BoolU u = true →
     noIsGen u = true → build u = some e →
-    truth (evalCore env e) = evalBoolU env u ∧ negSound e
+    truth (evalCore env d e) = evalBoolU env d u ∧ negSound e
   | .bin k a b, e, hu, hn, hb => by
     simp only [BoolU, Bool.and_eq_true, Bool.or_eq_true] at hu
     obtain ⟨⟨hk, hna⟩, hbb⟩ := hu
+    have hn3 : noIsGen a = true ∧ noIsGen b = true := by
+      have h' := hn
+      simp only [noIsGen, Bool.and_eq_true] at h'
+      exact ⟨h'.1.2, h'.2⟩
     simp only [build] at hb
     cases ha : build a with
     | none => simp [ha] at hb
     | some x =>
       have nx := build_num a x hna ha
       have hpl : isPyLit a = false := by cases a <;> first | rfl | (simp [NumU] at hna)
-      have ex := build_num_eval env a x hna ha
+      have ex := build_num_eval env d a x hna hn3.1 ha
       cases hb' : build b with
       | none => simp [ha, hb'] at hb
       | some y =>
@@ -730,14 +1081,14 @@ theorem build_bool_eval (env : String → Val) : ∀ (u : U) (e : SaExpr), BoolU
               (soundPair op' n' ∧ soundPair n' op') →
               booleanCompare x k.op .null (negateOp k.op) none =
                 some (constructForOp x .null op' .bool (some n') none) →
-              truth (binVal op' (evalNumU env a) .null) = evalBoolU env (.bin k a .null) →
-              truth (evalCore env e) = evalBoolU env (.bin k a .null) ∧ negSound e := by
+              truth (binVal op' (evalNumU env d a) .null) = evalBoolU env d (.bin k a .null) →
+              truth (evalCore env d e) = evalBoolU env d (.bin k a .null) ∧ negSound e := by
             intro op' n' hop' hna' hsp heq hval
             rw [heq] at hb2
             simp only [Option.some.injEq] at hb2
             subst hb2
             refine ⟨?_, negSound_construct x .null op' n' hop' hna' hsp⟩
-            rw [constructForOp_eval env x .null op' .bool _ hop' nx.core nx.wg hnull.1 hnull.2, ex]
+            rw [constructForOp_eval env d x .null op' .bool _ hop' nx.core nx.wg hnull.1 hnull.2, ex]
             exact hval
           rcases hk4 with h | h | h | h <;> subst h
           · exact key .is_ .is_not rfl (by decide) soundPair_is rfl
@@ -754,7 +1105,7 @@ theorem build_bool_eval (env : String → Val) : ∀ (u : U) (e : SaExpr), BoolU
             · exact h
             · exact absurd (null_of_match b k h) hbn
           have ny := build_num b y hnb hb'
-          have ey := build_num_eval env b y hnb hb'
+          have ey := build_num_eval env d b y hnb hn3.2 hb'
           have hpr := pyReflected_num x y ny
           simp only [hpr, hpl, Bool.or_false, Bool.false_eq_true, if_false] at hb
           have hb2 : booleanCompare x k.op y (negateOp k.op) none = some e := by
@@ -766,12 +1117,14 @@ theorem build_bool_eval (env : String → Val) : ∀ (u : U) (e : SaExpr), BoolU
           subst hb2
           have h6 : k = .eq ∨ k = .ne ∨ k = .lt ∨ k = .le ∨ k = .gt ∨ k = .ge := by
             apply sixCmp_of k hk
-            simpa [noIsGen] using hn
+            have h' := hn
+            simp only [noIsGen, Bool.and_eq_true] at h'
+            simpa using h'.1.1
           obtain ⟨n, hneg⟩ := negate_isSome_cmp k hk
           rw [hneg]
           refine ⟨?_, negSound_construct x y k.op n (cmpK_coreBin k hk) (assoc_cmp k hk)
             (soundPair_table k h6 n hneg)⟩
-          rw [constructForOp_eval env x y k.op .bool _ (cmpK_coreBin k hk) nx.core nx.wg ny.core ny.wg,
+          rw [constructForOp_eval env d x y k.op .bool _ (cmpK_coreBin k hk) nx.core nx.wg ny.core ny.wg,
             ex, ey, truth_binVal_cmp k hk]
           simp [evalBoolU]
   | .not_ a, e, hu, hn, hb => by
@@ -782,8 +1135,8 @@ theorem build_bool_eval (env : String → Val) : ∀ (u : U) (e : SaExpr), BoolU
       simp only [ha, Option.map_some, Option.some.injEq] at hb; subst hb
       have hua : BoolU a = true := by simpa [BoolU] using hu
       have hna : noIsGen a = true := by simpa [noIsGen] using hn
-      obtain ⟨ih, hs⟩ := build_bool_eval env a x hua hna ha
-      obtain ⟨h1, h2⟩ := negate_eval env x (build_bool a x hua ha) hs
+      obtain ⟨ih, hs⟩ := build_bool_eval env d a x hua hna ha
+      obtain ⟨h1, h2⟩ := negate_eval env d x (build_bool a x hua ha) hs
       exact ⟨by rw [h1, ih]; simp [evalBoolU], h2⟩
   | .and_ cs, e, hu, hn, hb => by
     simp only [BoolU, Bool.and_eq_true, Bool.not_eq_true'] at hu
@@ -796,9 +1149,9 @@ theorem build_bool_eval (env : String → Val) : ∀ (u : U) (e : SaExpr), BoolU
       | cons c cs' =>
         simp only [hl, Option.some.injEq] at hb; subst hb
         have hbe := build_boolList cs _ hu.2 hl
-        obtain ⟨hv, hsn⟩ := build_boolList_eval env cs _ hu.2 (by simpa [noIsGen] using hn) hl
+        obtain ⟨hv, hsn⟩ := build_boolList_eval env d cs _ hu.2 (by simpa [noIsGen] using hn) hl
         refine ⟨?_, negSound_boolConstruct .and_ (Or.inl rfl) _ (by simp) hbe hsn⟩
-        rw [boolConstruct_eval env .and_ (Or.inl rfl) _ (by simp) hbe]
+        rw [boolConstruct_eval env d .and_ (Or.inl rfl) _ (by simp) hbe]
         simp only [if_true, evalBoolU]
         rw [hv]
   | .or_ cs, e, hu, hn, hb => by
@@ -812,9 +1165,9 @@ theorem build_bool_eval (env : String → Val) : ∀ (u : U) (e : SaExpr), BoolU
       | cons c cs' =>
         simp only [hl, Option.some.injEq] at hb; subst hb
         have hbe := build_boolList cs _ hu.2 hl
-        obtain ⟨hv, hsn⟩ := build_boolList_eval env cs _ hu.2 (by simpa [noIsGen] using hn) hl
+        obtain ⟨hv, hsn⟩ := build_boolList_eval env d cs _ hu.2 (by simpa [noIsGen] using hn) hl
         refine ⟨?_, negSound_boolConstruct .or_ (Or.inr rfl) _ (by simp) hbe hsn⟩
-        rw [boolConstruct_eval env .or_ (Or.inr rfl) _ (by simp) hbe]
+        rw [boolConstruct_eval env d .or_ (Or.inr rfl) _ (by simp) hbe]
         simp only [show (Op.or_ = Op.and_) = False from by simp, if_false, evalBoolU]
         rw [hv]
   | .col _ _, _, hu, _, _ => by simp [BoolU] at hu
@@ -839,9 +1192,9 @@ theorem build_bool_eval (env : String → Val) : ∀ (u : U) (e : SaExpr), BoolU
   | .strop _ _ _ _, _, hu, _, _ => by simp [BoolU] at hu
   | .absent, _, hu, _, _ => by simp [BoolU] at hu
 
-theorem build_boolList_eval (env : String → Val) : ∀ (us : List U) (es : List SaExpr),
+theorem build_boolList_eval (env : String → Val) (d : Dialect) : ∀ (us : List U) (es : List SaExpr),
     BoolUList us = true → noIsGenList us = true → buildList us = some es →
-    es.map (fun c => truth (evalCore env c)) = evalBoolUList env us ∧ ∀ c ∈ es, negSound c
+    es.map (fun c => truth (evalCore env d c)) = evalBoolUList env d us ∧ ∀ c ∈ es, negSound c
   | [], es, _, _, hb => by
     simp only [buildList, Option.some.injEq] at hb; subst hb
     exact ⟨rfl, by intro c hc; simp at hc⟩
@@ -856,8 +1209,8 @@ theorem build_boolList_eval (env : String → Val) : ∀ (us : List U) (es : Lis
       | none => simp [h1, h2] at hb
       | some xs =>
         simp only [h1, h2, Option.some.injEq] at hb; subst hb
-        obtain ⟨a1, a2⟩ := build_bool_eval env u x hu.1 hn.1 h1
-        obtain ⟨b1, b2⟩ := build_boolList_eval env us xs hu.2 hn.2 h2
+        obtain ⟨a1, a2⟩ := build_bool_eval env d u x hu.1 hn.1 h1
+        obtain ⟨b1, b2⟩ := build_boolList_eval env d us xs hu.2 hn.2 h2
         refine ⟨by simp [evalBoolUList, a1, b1], ?_⟩
         intro c hc
         simp only [List.mem_cons] at hc
